@@ -556,11 +556,20 @@ def toFileAnnot (img : Image) (a : Annot) : FileAnnot :=
 
 def natStr (n : Nat) : Str := (toString n).toList
 
-/-- The string fed to the dedup hash in `bufanalysis.hash` (fields concatenated WITHOUT
-    separators, as coded; SHA-256 itself is taken as injective). -/
+/-- UTF-8 byte length (Go's `len` of a string). -/
+def utf8LenStr : Str → Nat
+  | [] => 0
+  | c :: cs => c.utf8Size + utf8LenStr cs
+
+/-- one length-prefixed field: strconv.Itoa(len(field)) ':' field -/
+def lpField (s : Str) : Str := natStr (utf8LenStr s) ++ ':' :: s
+
+/-- The string fed to the dedup hash in `bufanalysis.hash` — since fix 16321bc every field is
+    written length-prefixed (before, the fields were concatenated without separators; see C20);
+    SHA-256 itself is taken as injective. -/
 def dedupKey (fa : FileAnnot) : Str :=
-  fa.path.getD [] ++ natStr fa.startLine ++ natStr fa.startCol ++ natStr fa.endLine ++
-    natStr fa.endCol ++ fa.type.toList ++ fa.message.toList
+  [fa.path.getD [], natStr fa.startLine, natStr fa.startCol, natStr fa.endLine,
+    natStr fa.endCol, fa.type.toList, fa.message.toList].flatMap lpField
 
 /-- First-occurrence dedup by key (`deduplicateAndSortFileAnnotations`, first half). -/
 def dedupByKey : List FileAnnot → List Str → List FileAnnot
